@@ -7,9 +7,12 @@ package main
 //     AST-identical to the reference modulo generics and local names  => OK
 //  2. the two go/ssa functions are proved equivalent by relational symbolic
 //     execution (c14symexec.go)                                       => OK
-//  3. a concrete small heap on which they end in different observable
-//     states is found (c14ringexec.go)                => VIOLATION + witness
-//  4. neither                                    => UNDECIDED (this function)
+//  3. the declaration is the reference's up to a small token edit (smallEdit)
+//     that the prover cannot equate                           => VIOLATION
+//     (a concrete small heap on which the two SSA functions end in different
+//     observable states, c14ringexec.go, is attached as an illustration when
+//     one is found; it never decides)
+//  4. otherwise                                  => UNDECIDED (this function)
 //
 // Unexported functions and field names are not anchors: helpers are executed
 // in place on both sides, the unexported link fields are matched by role
@@ -208,7 +211,7 @@ func c14Ring(c *Ctx, rule string) {
 	}
 
 	// ---- the decision procedures must be alive: a function is equivalent to
-	// itself, Next is not Prev, and a witness for that is found
+	// itself and Next is not Prev
 	if nx, pv := rc.refFn["Ring.Next"], rc.refFn["Ring.Prev"]; nx != nil && pv != nil {
 		rc.perm = nil
 		if mm := rc.prove(nx, nx, false); mm != nil {
@@ -216,9 +219,6 @@ func c14Ring(c *Ctx, rule string) {
 		}
 		if mm := rc.prove(nx, pv, false); mm == nil {
 			r.Undecide("checker-dead: %s: the equivalence prover proves Ring.Next equivalent to Ring.Prev", rule)
-		}
-		if w, _ := rc.refute(nx, pv); w == "" {
-			r.Undecide("checker-dead: %s: the bounded differential evaluation finds no difference between Ring.Next and Ring.Prev", rule)
 		}
 	}
 
@@ -282,22 +282,32 @@ func c14Ring(c *Ctx, rule string) {
 			r.OK(rule, construct, p.Pos(pf.Pos()), o.how)
 			continue
 		}
-		witness, note := rc.refute(pf, rf)
-		leaf := rc.leafDiff(name)
-		if witness != "" {
-			msg := "behaves differently from container/ring"
-			ws := []string{"witness: " + witness, "first difference found by the symbolic comparison: " + o.mismatch.String()}
-			if leaf != "" {
-				msg += ": same shape as the reference, but " + leaf
+		// The verdict is structural: VIOLATION only when the declaration is the
+		// reference's up to a small edit (a few tokens replaced, dropped, added
+		// or moved: constant, operator, field, operand, one statement) that the
+		// prover — which canonicalises comparisons, linear integer arithmetic
+		// and commuting stores — cannot equate. A declaration that is not close
+		// to the reference and not proved equivalent is UNDECIDED. A concrete input on which the two SSA
+		// functions differ (bounded evaluation on small heaps) is attached to
+		// the report as an illustration when one is found; it never decides.
+		leaf := rc.smallEdit(name)
+		witness, note := "", ""
+		if os.Getenv("KC_C14_NOWITNESS") == "" {
+			witness, note = rc.refute(pf, rf)
+		}
+		if leaf != "" {
+			ws := []string{"first difference found by the symbolic comparison: " + o.mismatch.String()}
+			if witness != "" {
+				ws = append(ws, "illustration (not part of the decision): "+witness)
 			}
-			r.Violation(rule, construct, p.Pos(pf.Pos()), msg, ws...)
+			r.Violation(rule, construct, p.Pos(pf.Pos()), "differs from container/ring: "+leaf+", and the two are not equivalent under the prover's normal forms", ws...)
 			continue
 		}
 		extra := ""
-		if leaf != "" {
-			extra = "; same token shape as the reference, but " + leaf
+		if witness != "" {
+			extra = "; an input on which the two differ exists (" + witness + "), but the declaration does not have the reference's shape, so no leaf can be named"
 		}
-		r.Undecide("%s %s: not proved equivalent to the reference (%s)%s; %s", rule, construct, o.mismatch.String(), extra, note)
+		r.Undecide("%s %s: not proved equivalent to the reference (%s)%s %s", rule, construct, o.mismatch.String(), extra, note)
 	}
 }
 
@@ -469,6 +479,130 @@ func (rc *c14RingCmp) leafDiff(name string) string {
 		}
 	}
 	return strings.Join(diffs, "; ")
+}
+
+// smallEdit: the port's normalised declaration equals the reference's up to a
+// token edit distance of at most c14MaxEdit (unexported link fields mapped
+// through the field bijection, names of unexported helpers ignored). Returns a
+// description of the first difference, "" if the texts are equal or far apart.
+const c14MaxEdit = 12
+
+func (rc *c14RingCmp) smallEdit(name string) string {
+	if d := rc.smallEdit1(name); d != "" {
+		return d
+	}
+	if rc.prtText[name] != "" && rc.prtText[name] == rc.refText[name] {
+		// the function itself is the reference's: the difference sits in an
+		// unexported helper of the same name on both sides
+		var ks []string
+		for k := range rc.refText {
+			if _, isAPI := rc.refFn[k]; !isAPI && !strings.HasPrefix(k, "type ") && !strings.Contains(k, "@") && rc.prtText[k] != "" {
+				ks = append(ks, k)
+			}
+		}
+		sort.Strings(ks)
+		for _, k := range ks {
+			if d := rc.smallEdit1(k); d != "" {
+				return "in the helper " + k + ", " + d
+			}
+		}
+	}
+	return ""
+}
+
+func (rc *c14RingCmp) smallEdit1(name string) string {
+	pt, rt := rc.prtText[name], rc.refText[name]
+	if pt == "" || rt == "" {
+		return ""
+	}
+	ps, _ := rc.prtNamed.Underlying().(*types.Struct)
+	rs, _ := rc.refNamed.Underlying().(*types.Struct)
+	if ps != nil && rs != nil && rc.perm != nil {
+		// two passes so that a swap of names does not collide
+		for i, j := range rc.perm {
+			if i < ps.NumFields() && j < rs.NumFields() && !ps.Field(i).Exported() {
+				pt = regexp.MustCompile(`\.`+regexp.QuoteMeta(ps.Field(i).Name())+`\b`).ReplaceAllString(pt, fmt.Sprintf(".\x00%d", j))
+			}
+		}
+		for j := 0; j < rs.NumFields(); j++ {
+			pt = strings.ReplaceAll(pt, fmt.Sprintf(".\x00%d", j), "."+rs.Field(j).Name())
+		}
+	}
+	// unexported helper names are not semantic
+	helper := regexp.MustCompile(`\.([a-z_]\w*)\(`)
+	fields := map[string]bool{}
+	if rs != nil {
+		for j := 0; j < rs.NumFields(); j++ {
+			fields[rs.Field(j).Name()] = true
+		}
+	}
+	canon := func(t string) string {
+		return helper.ReplaceAllStringFunc(t, func(m string) string {
+			if fields[m[1:len(m)-1]] {
+				return m
+			}
+			return ".·("
+		})
+	}
+	a, b := strings.Fields(canon(pt)), strings.Fields(canon(rt))
+	if len(a) == 0 || len(b) == 0 {
+		return ""
+	}
+	d := c14EditDistance(a, b, c14MaxEdit+1)
+	if d == 0 || d > c14MaxEdit {
+		return ""
+	}
+	i := 0
+	for i < len(a) && i < len(b) && a[i] == b[i] {
+		i++
+	}
+	win := func(x []string) string {
+		lo, hi := i-3, i+6
+		if lo < 0 {
+			lo = 0
+		}
+		if hi > len(x) {
+			hi = len(x)
+		}
+		if lo > hi {
+			lo = hi
+		}
+		return strings.Join(x[lo:hi], " ")
+	}
+	return fmt.Sprintf("the declaration is the reference's up to an edit of %d tokens; first difference: the port has `%s` where the reference has `%s`", d, win(a), win(b))
+}
+
+// c14EditDistance: Levenshtein distance over tokens, cut off at limit.
+func c14EditDistance(a, b []string, limit int) int {
+	if d := len(a) - len(b); d > limit || -d > limit {
+		return limit
+	}
+	prev := make([]int, len(b)+1)
+	cur := make([]int, len(b)+1)
+	for j := range prev {
+		prev[j] = j
+	}
+	for i := 1; i <= len(a); i++ {
+		cur[0] = i
+		for j := 1; j <= len(b); j++ {
+			c := prev[j-1]
+			if a[i-1] != b[j-1] {
+				c++
+			}
+			if v := prev[j] + 1; v < c {
+				c = v
+			}
+			if v := cur[j-1] + 1; v < c {
+				c = v
+			}
+			cur[j] = c
+		}
+		prev, cur = cur, prev
+	}
+	if prev[len(b)] > limit {
+		return limit
+	}
+	return prev[len(b)]
 }
 
 // apiKey: fn is an exported function of the compared API on its side.
